@@ -73,7 +73,8 @@ QAP_RESOURCES = ("chr12a", "chr12b", "chr12c", "chr15a", "chr15b", "chr15c",
                  "rou12", "rou15", "scr12", "scr15", "tai12a", "tai12b",
                  "tai15a", "tai15b")
 TTP_RESOURCES = ("circ4", "circ6", "circ8", "circ10", "con4", "gal4",
-                 "nl4", "nl6", "sup4", "line4", "incr4", "con6", "gal6")
+                 "nl4", "nl6", "sup4", "line4", "incr4", "con6", "gal6",
+                 "nl8", "nl10", "circ12", "gal8", "sup8")
 INSTGEN_TEMPLATES = ("beng01", "beng02", "cl01_020_01", "cl02_020_01",
                      "cl03_020_01", "cl07_020_01", "cl10_020_01", "a01",
                      "a04")
@@ -423,7 +424,8 @@ def ttp_cases(draw: Any) -> dict:
     return {"family": "ttp", "setup": draw(st.sampled_from(
         ["rls", "rs", "mo_rls", "mo_nsga2"])),
         "inst": draw(st.sampled_from(TTP_RESOURCES)), "seed": draw(SEEDS),
-        "budget": draw(st.integers(20, 400))}
+        # tiny budgets return plans with byes, larger ones complete plans
+        "budget": draw(st.one_of(st.integers(1, 12), st.integers(20, 400)))}
 
 
 def check_ttp(ctx: Ctx, case: dict) -> None:
@@ -482,10 +484,13 @@ def check_ttp(ctx: Ctx, case: dict) -> None:
                 f"but the per-rule count is {cnt}")
     dist = [[int(v) for v in row] for row in np.asarray(inst)]
     length = oracle_ttp.travel_length(plan, dist)
+    # the travel length of the returned plan (second objective of the
+    # multi-objective set-ups) - evaluated for every returned plan
+    len_fresh = sut("GamePlanLength.evaluate", GamePlanLength(inst).evaluate,
+                    y)
+    require(len_fresh == length, lambda: f"{what}: plan length "
+            f"{len_fresh} but the walk gives {length} (plan {plan})")
     if mo:
-        len_fresh = GamePlanLength(inst).evaluate(y)
-        require(len_fresh == length, lambda: f"{what}: plan length "
-                f"{len_fresh} but the walk gives {length}")
         if "fs" in r1:
             require(r1["fs"] == [errs_fresh, length], lambda: f"{what}: "
                     f"logged objective vector {r1['fs']} but the solution "
@@ -788,6 +793,30 @@ def _check_dc(ctx: Ctx, case: dict, extra_labels: list[str]) -> tuple:
     v = fresh.evaluate(x)
     require(v == f, lambda: f"{what}: best_f={f!r} but a fresh objective "
             f"evaluates the returned parameters to {v!r}")
+    # independent re-evaluation: simulate every training case with run_ode
+    # (whose contract is the subject of C10) and combine the documented
+    # figures of merit J with the *system's* gamma and state range
+    import math
+
+    from moptipyapps.dynamic_control.ode import j_from_ode, run_ode
+    js = []
+    for start in system.training_starting_states:
+        ode = run_ode(np.array(start, dtype=float), system.equations,
+                      controller.controller, x, cd, system.training_steps,
+                      system.training_time)
+        js.append(float(j_from_ode(ode, sd, system.state_dims_in_j,
+                                   system.gamma)))
+    if all(0.0 <= j <= 1e100 for j in js):
+        want = math.expm1(math.fsum(math.log1p(j) for j in js) / len(js))
+        if not 0.0 <= want <= 1e100:
+            want = 1e200
+    else:
+        want = 1e200
+    require(f == want or (want != 1e200 and abs(f - want)
+                          <= 1e-9 * max(1.0, abs(want))),
+            lambda: f"{what}: best_f={f!r} but exp(mean(log(J+1)))-1 over "
+            f"the per-training-case figures of merit {js} (gamma="
+            f"{system.gamma}) is {want!r}")
     return r1["last_imp"] > 1, [
         "family=dc", f"dc.setup={case['setup']}",
         f"dc.system={case['system']}", *extra_labels]
